@@ -147,7 +147,7 @@ impl Check for EpochClocks {
             .boxed()
     }
     fn cases(&self, tier: Tier) -> u32 {
-        tier.pick(30_000, 2_000_000)
+        tier.pick(30_000, 1_400_000)
     }
     fn min_nontrivial(&self) -> f64 {
         0.05
